@@ -651,7 +651,8 @@ class ClimateNetwork(GeoNetwork):
 
         :rtype: 2D matrix [index, index]
         """
-        m = self.correlation_distance()
+        # NOTE: work on a copy, `correlation_distance()` is cached
+        m = self.correlation_distance().copy()
         np.fill_diagonal(m, np.inf)
         self.set_link_attribute('inv_correlation_distance', 1 / m)
         return 1 / m
